@@ -479,6 +479,13 @@ def build_sites_model(c):
 ORDER = {'bulk': 0, 'dislocations': 0, 'grain boundaries': 2, 'grain edges': 1, 'grain corners': 0}
 
 
+class TieBroken(Exception):
+    """an observation point of the harness is gone (renamed private name, ...): not a violation of the property by the code"""
+
+
+TIE_BROKEN = []
+
+
 def pool_of(site):
     """phases competing for the same sites.  Bulk and dislocation phases share one pool (number of particles against
     bulkN0): DislocationDescription derives from BulkDescription and `_calcNucleationSites` tests BulkDescription first
@@ -521,7 +528,10 @@ def sites_populations(c, info, scale=None):
 def run_sites(c, scale=None, setup=None):
     m, info = setup or sites_setup(c)
     x = sites_populations(c, info, scale)
-    return m, x, [float(quiet(m._calcNucleationSites, 0.0, [a.copy() for a in x], p)) for p in range(len(c['phases']))]
+    fn = getattr(m, '_calcNucleationSites', None)      # the mechanism the property names; private, hence looked up defensively
+    if fn is None:
+        raise TieBroken('PrecipitateModel has no method _calcNucleationSites any more: the number of available sites cannot be observed')
+    return m, x, [float(quiet(fn, 0.0, [a.copy() for a in x], p)) for p in range(len(c['phases']))]
 
 
 def expected_sites(c, info, x, p):
@@ -543,6 +553,10 @@ def oracle_sites(c):
             sc = [c['grow'][q] if i == q else 1.0 for i in range(nph)]
             grown.append((q, sc, run_sites(c, scale=sc, setup=setup)[2]))
         grown.append((None, c['grow'], run_sites(c, scale=c['grow'], setup=setup)[2]))
+    except TieBroken as e:
+        if str(e) not in TIE_BROKEN:
+            TIE_BROKEN.append(str(e))
+        return []
     except Exception as e:
         return [('no_internal_error', 'exception', '_calcNucleationSites raised %s: %s' % (type(e).__name__, e))]
     info = setup[1]
@@ -599,9 +613,9 @@ def run_cache_impl(c):
                 nbp.setNucleationType(arg)
                 out.append(None)
             elif op == 'gamma' or (op == 'pgamma' and prec is None):
-                nbp.gamma = arg
                 if prec is not None:
-                    prec._gamma = arg      # keep the owner consistent (its callback copies gamma back)
+                    prec.gamma = arg       # keep the owner consistent through its public setter (its callback copies gamma back) ...
+                nbp.gamma = arg            # ... and exercise the setter of the parameter object itself
                 out.append(None)
             elif op == 'pgamma':
                 prec.gamma = arg
@@ -1237,6 +1251,10 @@ def corr_sites(ctx, quick):
         c = gen_sites(rng, quick)
         try:
             m, x, s = run_sites(c)
+        except TieBroken as e:
+            if str(e) not in TIE_BROKEN:
+                TIE_BROKEN.append(str(e))
+            continue
         except Exception as e:
             meta.append((c, None, 'raised %s' % e))
             continue
@@ -1428,31 +1446,44 @@ def run(ctx):
     axioms, failed = fut.result()
     tm['all_incl_proofs'] = round(_t.time() - T0, 1)
     pool.shutdown()
+    dependent = []          # theorems about the generated text that cannot be checked because the tie itself is broken
     if not bridge_ok:
         for rel in RUN_FILES:
             thms = theorems_of(rel)
             ctx.cov['obligations'] += len(thms)
-            failed += thms
+            dependent += thms
     ctx.cov['traces_validated_against_impl'] = ctx.cov['evaluations']
     ctx.notes['disagreements'] = len(dis)
     ctx.notes['disagreement_examples'] = [d[2] for d in dis[:5]]
     ctx.notes['oracle_hits'] = len(hits)
     # ---- 5. something broke and the search found nothing: search harder ----------------------------
-    if (not tie_ok or failed or dis) and not hits:
+    if (not tie_ok or failed or dependent or dis) and not hits:
         # the inputs on which the correspondence failed first, then a larger random budget
         more = [d[1] for d in dis if d[1] is not None]
         hits = search(ctx, more) + search(ctx, gen_search(ctx.rng, quick, budget=4.0))
     report_hits(ctx, hits)
     if not hits:
+        # ONE line for a broken tie (the theorems about the generated text that depend on it are listed in the replay file)
         if not tie_ok:
             ctx.violation('translator', {'site': 'harness/c14_translate.py', 'cls': 'unsupported source'},
-                          {'broken': {'tie': 'translator', 'error': info, 'file': NSRC}},
-                          'tie broken: the source is outside the translated subset (%s); the search found no failing input' % info, no_input=True)
+                          {'broken': {'tie': 'translator', 'error': info, 'file': NSRC, 'unchecked_theorems': dependent}},
+                          'tie broken: the source is outside the translated subset (%s); %d theorems about the generated text could not be re-checked; the search found no failing input'
+                          % (info, len(dependent)), no_input=True)
+        elif not bridge_ok:
+            err = (ctx.notes.get('coq_errors') or [{}])[0].get('output', '')
+            m_ = re.search(r'File "[^"]*Bridge\.v", line (\d+)', err)
+            ctx.violation('bridge', {'site': 'coq/C14/run/Bridge.v', 'cls': 'generated text differs from the specification'},
+                          {'broken': {'tie': 'bridge', 'file': 'coq/C14/run/Bridge.v', 'error': err[-800:], 'unchecked_theorems': dependent}},
+                          'tie broken: the definitions generated from the current source are no longer provably equal to the specification (coq/C14/run/Bridge.v%s); '
+                          '%d theorems about the generated text could not be re-checked; the search found no failing input' % (' line ' + m_.group(1) if m_ else '', len(dependent)), no_input=True)
         for t in failed:
             ctx.violation(t, {'site': 'coq/C14', 'cls': 'proof'}, {'broken': {'theorem': t, 'errors': ctx.notes.get('coq_errors', [])[:2]}},
                           'theorem %s no longer checks against the text generated from the current source' % t, no_input=True)
-    elif failed or not tie_ok:
-        ctx.notes['unchecked_theorems'] = failed
+    elif failed or dependent or not tie_ok:
+        ctx.notes['unchecked_theorems'] = failed + dependent
+    for msg in TIE_BROKEN:
+        ctx.violation('observation', {'site': 'harness/c14.py', 'cls': 'observation point missing'}, {'broken': {'tie': 'observation', 'error': msg}},
+                      'tie broken: ' + msg, no_input=True)
     # a correspondence that broke is reported unless the search produced a failing input of the same kind
     hit_kinds = set(h[0]['kind'] for h in hits)
     kinds = set()
